@@ -21,6 +21,8 @@ Floor
   `inst_subst_deref` / `inst_subst_exact`: substituting that map into the pattern gives the supplied
                               schema up to REF transparency (`derefAll`) — exactly, unless the resolved
                               type contains one of the code's two wildcards (`SIGNAL`, size-0 `TSL`).
+* `tsb_pattern_requires_same_fields`: a field-listing bundle pattern only accepts a bundle with exactly its
+                              field names, in its order (so the same count) — no trailing extra field.
 * `output_is_substitution`  : the reported output schema is the substitution of the winner's bindings
                               into its declared output pattern, and it exists.
 
@@ -89,6 +91,51 @@ theorem inst_subst_exact {p : TP} {m : RMap} {c d : CT} (hi : inst p m c = true)
 theorem match_complete {p : TP} {c : CT} {m mf : RMap} (h : MapLe m mf) (hi : inst p mf c = true) :
     ∃ m', inMatch p c m = some m' ∧ MapLe m' mf :=
   inMatch_complete p c m mf h hi
+
+/-! ## a field-listing bundle pattern accepts exactly its own field list -/
+
+/-- the field names a bundle pattern lists, in order -/
+def pFieldNames : PFields → List Name
+  | .nil => []
+  | .cons f _ rest => f :: pFieldNames rest
+
+/-- the field names of a bundle schema, in order -/
+def cFieldNames : CFields → List Name
+  | .nil => []
+  | .cons f _ rest => f :: cFieldNames rest
+
+/-- the field loop of `input_ts_pattern_match`'s `TSB` arm (type_pattern.cpp l.298-304, guarded by
+    `field_count() != children.size()`): a match means the two name lists are EQUAL -/
+theorem inMatchFields_same_names : ∀ (fs : PFields) (cfs : CFields) (m m' : RMap),
+    inMatchFields fs cfs m = some m' → pFieldNames fs = cFieldNames cfs
+  | .nil, .nil, _, _, _ => rfl
+  | .cons f p rest, .cons g c crest, m, m', h => by
+    simp only [inMatchFields] at h
+    split at h
+    · rename_i hfg
+      split at h
+      · rename_i m1 h1
+        have := inMatchFields_same_names rest crest m1 m' h
+        simp [pFieldNames, cFieldNames, hfg, this]
+      · cases h
+    · cases h
+  | .nil, .cons _ _ _, m, m', h => by simp [inMatchFields] at h
+  | .cons _ _ _, .nil, m, m', h => by simp [inMatchFields] at h
+
+/-- **tsb_pattern_requires_same_fields.**  If the field-listing bundle pattern `TSB[f₁:p₁, …, f_k:p_k]` accepts an
+    argument schema, then (behind any `REF`s) that schema is a bundle with the SAME field names in the same order —
+    hence the same number of fields: no trailing extra field, none missing, none re-ordered, none re-named — and each
+    field's schema is accepted by the corresponding child pattern under the returned bindings (`instFields`). -/
+theorem tsb_pattern_requires_same_fields {fs : PFields} {c : CT} {m m' : RMap}
+    (h : inMatch (.tsb fs) c m = some m') :
+    ∃ cfs, stripRefs c = .tsb cfs ∧ pFieldNames fs = cFieldNames cfs ∧
+      (pFieldNames fs).length = (cFieldNames cfs).length ∧ instFields fs m' cfs = true := by
+  simp only [inMatch] at h
+  split at h
+  · rename_i cfs hc
+    have hn := inMatchFields_same_names fs cfs m m' h
+    exact ⟨cfs, hc, hn, by rw [hn], (inMatchFields_sound fs cfs m m' h).2⟩
+  · cases h
 
 /-! ## survivors -/
 
@@ -625,6 +672,25 @@ example : operatorRank ovDepthB.params = 5102 ∧
       = .winner ⟨ovDepthA, { ts := [(0, .ts 1)], sz := [(5, 2)] }, 5001⟩ (some (.ts 1)) ∧
     resolveCall [ovDepthB, ovDepthA] argsDepth
       = .winner ⟨ovDepthA, { ts := [(0, .ts 1)], sz := [(5, 2)] }, 5001⟩ (some (.ts 1)) := by decide
+/-- `tsb_pattern_requires_same_fields` is not vacuous, and the count test is what rejects a wider bundle: the pattern
+    `TSB[a:~T, b:~T]` (fields 7, 8) accepts `REF[TSB[a:TS[int], b:TS[int]]]`, and rejects the bundle that carries a
+    trailing field `c` (9), the one that lacks `b`, the re-ordered one and the one whose second field is named `c` -/
+private def pairPat : TP := .tsb (.cons 7 (.var 0 []) (.cons 8 (.var 0 []) .nil))
+example : inMatch pairPat (.ref (.tsb (.cons 7 (.ts 1) (.cons 8 (.ts 1) .nil)))) RMap.empty = some { ts := [(0, .ts 1)] } ∧
+    inMatch pairPat (.tsb (.cons 7 (.ts 1) (.cons 8 (.ts 1) (.cons 9 (.ts 3) .nil)))) RMap.empty = none ∧
+    inMatch pairPat (.tsb (.cons 7 (.ts 1) .nil)) RMap.empty = none ∧
+    inMatch pairPat (.tsb (.cons 8 (.ts 1) (.cons 7 (.ts 1) .nil))) RMap.empty = none ∧
+    inMatch pairPat (.tsb (.cons 7 (.ts 1) (.cons 9 (.ts 1) .nil))) RMap.empty = none ∧
+    inMatch (.tsl pairPat (.fixed 0)) (.tsl (.tsb (.cons 7 (.ts 1) (.cons 8 (.ts 1) (.cons 9 (.ts 3) .nil)))) 2) RMap.empty
+      = none := by decide
+/-- so a call with the wider bundle falls through to the `~X` fallback, in both registration orders, and with the
+    pair pattern alone it is a resolution error -/
+private def ovPair : Overload := { label := 30, params := [.input pairPat], out := some (.var 0 []) }
+private def ovAny : Overload := { label := 31, params := [.input (.var 4 [])], out := some (.var 4 []) }
+private def wideBundle : CT := .tsb (.cons 7 (.ts 1) (.cons 8 (.ts 1) (.cons 9 (.ts 3) .nil)))
+example : resolveCall [ovPair, ovAny] [.ts wideBundle] = .winner ⟨ovAny, { ts := [(4, wideBundle)] }, 10000⟩ (some wideBundle) ∧
+    resolveCall [ovAny, ovPair] [.ts wideBundle] = .winner ⟨ovAny, { ts := [(4, wideBundle)] }, 10000⟩ (some wideBundle) ∧
+    resolveCall [ovPair] [.ts wideBundle] = .noMatch := by decide
 /-- `inst_subst_exact`'s hypotheses hold there: the resolved type `TSL[TS[int],2]` has no wildcard -/
 example : subst (.tsl (.var 0 []) (.var 5 [])) { ts := [(0, .ts 1)], sz := [(5, 2)] } = some (.tsl (.ts 1) 2) ∧
     noWild (derefAll (.tsl (.ts 1) 2)) = true := by decide
